@@ -602,6 +602,10 @@ def iter_cells(hist, ranges=None, coord_ranges=None):
                     "low must be not less than 0 if provided"
                 )
         max_ind = len(edges[coord]) - 1
+        if low > max_ind:
+            raise lena.core.LenaValueError(
+                "low must not be greater than len(edges)-1, if provided"
+            )
         if up is None:
             up = max_ind
         else:
